@@ -1045,3 +1045,34 @@ Definition ex_head : response :=
 Example ex_others_wf :
   wf_response false ex_clen = true /\ wf_response false ex_close = true /\ wf_response true ex_head = true.
 Proof. repeat split; vm_compute; reflexivity. Qed.
+
+(* ------------------------------------------------------------------ the two limit clauses (finding F12) *)
+Lemma wf_chunks_split cs :
+  forallb wf_chunk cs = true <-> forallb wf_chunk_nolimit cs = true /\ forallb chunk_line_ok cs = true.
+Proof.
+  induction cs as [|c cs IH]; [cbn; tauto|].
+  cbn [forallb]. rewrite !andb_true_iff, IH. unfold wf_chunk, wf_chunk_nolimit, chunk_line_ok.
+  rewrite !andb_true_iff. tauto.
+Qed.
+
+(* wf_response is wf_response_nolimits plus exactly: every header block <= maxhdr + 1 bytes, every
+   chunk-size line (digits, extension, CRLF) <= maxchlen bytes *)
+Lemma wf_response_limit_clauses ishead r :
+  wf_response ishead r = true <-> wf_response_nolimits ishead r = true /\ within_limits r = true.
+Proof.
+  unfold wf_response, wf_response_nolimits, within_limits, wf_framing, wf_framing_nolimits.
+  destruct (p_framing r) as [|pos|pos cs ld le tr|]; rewrite !andb_true_iff; try tauto.
+  rewrite wf_chunks_split. tauto.
+Qed.
+
+(* the replay of corpus/http/limits_chunkline.case: a chunk extension of 300 bytes *)
+Definition ex_overlimit : response :=
+  mkResp [] (mkM [49] 200 [79; 75] []) (FrChunked 0 [mkC [53] (59 :: repeat 120 300) [104; 101; 108; 108; 111]] [48] [] [13; 10]) [].
+
+Example over_limit_segmentation_dependent :
+  wf_response_nolimits false ex_overlimit = true /\ within_limits ex_overlimit = false /\
+  http_response_run repo_terminated 0 init_rdr 100 false (mkNet [render ex_overlimit] EndEof)
+    = Ok (Done [expect ex_overlimit]) /\
+  http_response_run repo_terminated 0 init_rdr 100 false
+    (mkNet (map (fun b => [b]) (render ex_overlimit)) EndEof) = Ok (Done [CbNull]).
+Proof. repeat split; vm_compute; reflexivity. Qed.
